@@ -13,7 +13,7 @@ pub fn run(tier: &str) -> i32 {
   rep.set("optional_parameter_removals", json!(st.removals));
   rep.set("distinct_nontrivial", json!(st.classes.len().max(2)));
   rep.set("exhaustive", json!(true));
-  rep.set("rule", json!("per type (SpdpDiscoveredParticipantData, DiscoveredWriterData, DiscoveredReaderData, DiscoveredTopicData; ParticipantMessageData via CDR): all-absent, every single optional field with each of its 1-3 values, every pair of fields with every value combination, all-present for each value index and all-but-one (thorough: the full power set for <= 14 optionals, else all triples), in PL_CDR_LE and PL_CDR_BE: decode(encode(x)) == x on the wire-visible fields; then 7 kinds of foreign parameter (unknown standard, vendor-specific, lengths 0..16) spliced in before every parameter incl. the sentinel of the all-present and all-absent encodings: decoded value unchanged; then each optional parameter cut out of the all-present bytes: decoded value equals the value built with that field absent (Option None / empty list / false / 0)"));
+  rep.set("rule", json!("per type (SpdpDiscoveredParticipantData, DiscoveredWriterData, DiscoveredReaderData, DiscoveredTopicData; ParticipantMessageData via CDR): all-absent, every single optional field with each of its 1-3 values, every pair of fields with every value combination, all-present for each value index and all-but-one (thorough: the full power set for <= 14 optionals, else all triples), in PL_CDR_LE and PL_CDR_BE: decode(encode(x)) == x on the wire-visible fields; then 7 kinds of foreign parameter (unknown standard, vendor-specific, lengths 0..16) spliced in before every parameter incl. the sentinel of the all-present and all-absent encodings: decoded value unchanged; the sentinel's length field set to 4, 8, 0xfffc (to be ignored): decoded value unchanged; then each optional parameter cut out of the all-present bytes: decoded value equals the value built with that field absent (Option None / empty list / false / 0)"));
   for s in &st.samples {
     rep.push_sample(json!(s));
   }
